@@ -99,6 +99,22 @@ def denote(obj):
     raise TypeError('not an angle object: %r' % (obj,))
 
 
+def float_value_mismatch(obj):
+    """A DECAngle *is* a float: code that takes it as one (math.radians, numpy, format, the library's own rho/nu) reads the
+    C double of the float base, not the dec_angle attribute.  Returns None when the two agree (or obj is no float-derived
+    angle), else (value of the float base, dec_angle)."""
+    if not isinstance(obj, float) or type(obj) is float or not hasattr(obj, 'dec_angle'):
+        return None
+    raw = float.__float__(obj)
+    try:
+        da = float(obj.dec_angle)
+    except Exception:
+        return None
+    if raw == da or (raw != raw and da != da):
+        return None
+    return raw, da
+
+
 def denote_number(x, notation):
     """notation in 'dec', 'hp', 'gon', 'rad' (rad: returned as float degrees via exact-ish pi)."""
     if notation == 'dec':
